@@ -179,7 +179,12 @@ func runC19(t testing.TB, c C19Case) (key, what string, classes []string) {
 			// a repeated Ctrl+O must not extend the mute
 			if U.Sub(lastPlain) > pause+700*time.Millisecond {
 				if U.Sub(second) >= pause-100*time.Millisecond {
-					return "second-ctrl-o-extended-mute", fmt.Sprintf("%s: un-muted %.0f ms after the last output, i.e. 2 s after the repeated Ctrl+O", desc, float64(U.Sub(lastPlain).Milliseconds())), classes
+					// confirm with an identical mini-cycle before calling it: a single
+					// late observation could be a scheduling hiccup of the sandbox
+					if confirmExtension(p, marker) {
+						return "second-ctrl-o-extended-mute", fmt.Sprintf("%s: un-muted %.0f ms after the last output, i.e. 2 s after the repeated Ctrl+O (confirmed by a second identical cycle)", desc, float64(U.Sub(lastPlain).Milliseconds())), classes
+					}
+					return "HARNESS", desc + ": un-mute looked extended by a repeated Ctrl+O once, but not when repeated", classes
 				}
 				return "HARNESS", desc + ": un-mute later than expected, cause unclear", classes
 			}
@@ -327,4 +332,29 @@ func dedup(in []string) []string {
 		}
 	}
 	return out
+}
+
+// confirmExtension repeats "Ctrl+O, one marker, Ctrl+O again 1.2 s later" and
+// reports whether the un-mute again comes 2 s after the repeated Ctrl+O rather
+// than 2 s after the marker.
+func confirmExtension(p *Proc, marker func(string) error) bool {
+	time.Sleep(guard)
+	_, nMute := firstSeen(p.Chunks(), muteMsg)
+	_, nUn := firstSeen(p.Chunks(), unmuteMsg)
+	p.Type("\x0f")
+	if !p.WaitFor(10*time.Second, func(o string) bool { return strings.Count(o, muteMsg) > nMute }) {
+		return false
+	}
+	time.Sleep(guard)
+	marker("muted")
+	last := time.Now()
+	time.Sleep(1200 * time.Millisecond)
+	second := time.Now()
+	p.Type("\x0f")
+	p.WaitFor(8*time.Second, func(o string) bool { return strings.Count(o, unmuteMsg) > nUn })
+	U := nthSeen(p.Chunks(), unmuteMsg, nUn+1)
+	if U.IsZero() {
+		return false
+	}
+	return U.Sub(last) > pause+700*time.Millisecond && U.Sub(second) >= pause-100*time.Millisecond
 }
